@@ -20,7 +20,7 @@ def fixtures():
 
 PAIR_CLASSES = ["related", "related", "related", "related", "unrelated", "fixture_mut", "sim_straddle",
                 "short_sources", "base64", "pointer_only", "mime_keys", "output_kinds", "attachments",
-                "meta_types", "separators", "move_dup", "identical", "minor_change", "line_endings"]
+                "meta_types", "separators", "move_dup", "identical", "minor_change", "line_endings", "diff_lookalike"]
 
 
 def _code_cell(gen, minor, source, outputs=None):
@@ -160,6 +160,22 @@ def nb_pair(gen, cls=None, minor=None):
         c["source"] = edit_text(c["source"], gen, CODE_LINES)
         c["outputs"][0]["text"] = c["outputs"][0]["text"].replace("two", "TWO" + r.choice(EXOTIC_SEPS))
         c["outputs"][1]["data"]["text/plain"] = "p" + sep + "Q" + r.choice(EXOTIC_SEPS) + "r"
+    elif cls == "diff_lookalike":
+        look = ["\\ No newline at end of file", "--- before", "+++ after", "@@ -1,3 +1,3 @@", "-removed", "+added", " context",
+                "diff --git a/before b/after", "index 000..111 100644", "<<<<<<< not a real marker", "text"]
+        la = [r.choice(look) for _ in range(r.randrange(3, 9))]
+        if r.random() < 0.7:
+            for _ in range(3):
+                la.insert(r.randrange(len(la) + 1), look[0])
+        lb = list(la)
+        for _ in range(r.randrange(1, 4)):
+            lb[r.randrange(len(lb))] = r.choice(look)
+        if r.random() < 0.5:
+            lb.insert(r.randrange(len(lb) + 1), "\\ No newline at end of file")
+        a["cells"].insert(0, _code_cell(gen, m, "\n".join(la) + r.choice(["", "\n"]), [{"output_type": "stream", "name": "stdout", "text": "\n".join(la)}]))
+        b = copy.deepcopy(a)
+        b["cells"][0]["source"] = "\n".join(lb) + r.choice(["", "\n"])
+        b["cells"][0]["outputs"][0]["text"] = "\n".join(lb) + r.choice(["", "\n"])
     elif cls == "move_dup":
         b, rec = mutate(a, gen, steps=r.choice([1, 2, 3]), ops=["move", "insert_dup", "move", "delete"])
     elif cls == "line_endings":
